@@ -51,6 +51,25 @@ CTYPES = {"RUN": 1, "TAGGED": 2, "CHAINED": 3, "CALIBRATION": 4}
 _tls = threading.local()
 _patched = False
 
+# Dataset ids in creation order.  emptyTrash removes artifacts in the order of its trash query, which is the order of the
+# dataset ids (index on dataset_location_trash); with random uuid4 ids that order differs from run to run, and it matters
+# when another client's put lands between two removals.  Ids that grow with creation time make the implementation
+# deterministic under a schedule (and equal to the model, which removes in creation order).  Harness only; /repo untouched.
+import itertools as _it
+import uuid as _uuid
+_uuid_lock = threading.Lock()
+_uuid_ctr = _it.count(1)
+_uuid_rand = _uuid.uuid4
+
+
+def _ordered_uuid4():
+    with _uuid_lock:
+        n = next(_uuid_ctr)
+    return _uuid.UUID(int=(n << 80) | (_uuid_rand().int & ((1 << 76) - 1)), version=4)
+
+
+_uuid.uuid4 = _ordered_uuid4
+
 
 class Hang(Exception):
     pass
@@ -277,6 +296,15 @@ def open_client(root):
 
 
 def final_state(root):
+    """What a FRESH Butler sees; when it cannot even load the repository's definitions that is the observation."""
+    try:
+        return _final_state(root)
+    except Exception as e:  # noqa: BLE001
+        return {"load_failed": f"{type(e).__name__}: {str(e)[:200]}", "colls": [], "chains": {}, "data": {}, "tags": {}, "dtypes": [],
+                "files": [], "trash": -1, "nrec": -1, "nloc": -1, "orphan_rec": -1, "cycle": False}
+
+
+def _final_state(root):
     """What a FRESH Butler sees, canonical (no UUIDs, no paths outside the root, sorted)."""
     b = fixture.open_repo(root, writeable=False)
     reg = b.registry
